@@ -89,7 +89,7 @@ package errors
 //@   ensures [cursor_monotone] c.Dispenser.cursor >= old(c.Dispenser.cursor)
 //@   loop 1 invariant c != nil && cfg != nil && wfHandler(handler) && c.Dispenser.cursor >= old(c.Dispenser.cursor)
 //@ func errorsParse
-//@   modifies Dispenser.cursor
+//@   modifies Dispenser.cursor, Dispenser.nesting, ErrorHandler.GenericErrorPage, MV:map[int]string, MD:map[int]string
 //@   requires c != nil
 //@   ensures [handler_with_pages_and_logger] result1 == nil ==> wfHandler(result0)
 //@   loop 1 invariant c != nil && cfg != nil && wfHandler(handler)
